@@ -155,6 +155,17 @@ def lexDrain (L : Lang) (src : List Nat) : Nat → LexSt → List Tok
 def lexAll (L : Lang) (src : List Nat) (raw : List Tok) : List Tok :=
   lexDrain L src (2 * raw.length) ⟨[], raw⟩
 
+/-! ### Trivia insertion at the lexer level (used by `Props.c12_lex_trivia_insertion`) -/
+
+/-- A token moved `d` bytes to the right (what happens to every token behind an insertion of `d`
+bytes). -/
+def shiftTok (d : Nat) (t : Tok) : Tok := ⟨t.kind, t.lo + d, t.hi + d⟩
+
+/-- The kinds of the significant (non-trivia) tokens of a token list, in order: the part of the
+lexer's output the parser looks at. -/
+def sigKinds (L : Lang) (ts : List Tok) : List Nat :=
+  (ts.filter fun t => !L.isTrivia t.kind).map (·.kind)
+
 /-! ## Events (`parser/event.rs`) -/
 
 inductive Event where
